@@ -6,8 +6,15 @@ VERIF="$(cd "$(dirname "$0")" && pwd)"
 D="$("$VERIF/build.sh" "$FLAV")"
 OUT="$D/$TOOL"
 SRC="$VERIF/src/$TOOL.cpp"
-if [ -x "$OUT" ] && [ "$OUT" -nt "$SRC" ] && [ -z "$(find "$VERIF/src" -name '*.hpp' -newer "$OUT" -print -quit)" ]; then echo "$OUT"; exit 0; fi
+if [ -x "$OUT" ] && [ "$OUT" -nt "$SRC" ] && [ -z "$(find "$VERIF/src" \( -name '*.hpp' -o -name '*.h' -o -name '*.c' \) -newer "$OUT" -print -quit)" ]; then echo "$OUT"; exit 0; fi
 FLAGS="$(cat "$D/flags.txt")"
 exec 8>"$D/.lock.$TOOL"; flock 8
-g++ $FLAGS -I"$VERIF/src" "$SRC" "$D/libcsd.a" -lpthread -o "$OUT.tmp.$$" && mv "$OUT.tmp.$$" "$OUT"
+EXTRA=""
+if [ "$TOOL" = "sx" ]; then
+  # the scheduler core is C, compiled without any sanitizer
+  gcc -O1 -g -fPIC -c "$VERIF/src/sx/sched.c" -I"$VERIF/src/sx" -o "$D/sched.$$.o"
+  EXTRA="$D/sched.$$.o -ldl"
+fi
+g++ $FLAGS -I"$VERIF/src" "$SRC" $EXTRA "$D/libcsd.a" -lpthread -o "$OUT.tmp.$$" && mv "$OUT.tmp.$$" "$OUT"
+rm -f "$D/sched.$$.o"
 echo "$OUT"
